@@ -230,7 +230,9 @@ pub fn run_path(scn: &Value) -> Value {
     }
     let starts_private = matches!(scn["path"][0].as_str(), Some("private") | Some("generated"));
     if typ == "rsa" && !starts_private {
-        subjects.push(("rsa2048-256", 100, None));
+        for n in 0..keys::RSA_PUBLIC_ONLY.len() {
+            subjects.push(("rsa2048-256", 100 + n, None));
+        }
     }
     for (fam, idx, der_opt) in subjects {
         {
@@ -239,7 +241,7 @@ pub fn run_path(scn: &Value) -> Value {
             let mut generated: Option<Vec<u8>> = None;
             // the public key material, derived from the private key WITHOUT the library (ring only)
             let mut material = match der_opt {
-                None => keys::RSA8192_PKCS1.to_vec(),
+                None => keys::RSA_PUBLIC_ONLY[idx - 100].0.to_vec(),
                 Some(d) => match independent_public(typ, d) {
                     Some(m) => m,
                     None => {
@@ -248,8 +250,8 @@ pub fn run_path(scn: &Value) -> Value {
                     }
                 },
             };
-            if der_opt.is_none() && standard_spki(typ, &material) != keys::RSA8192_SPKI {
-                problems.push(json!({"harness": "SPKI template disagrees with the openssl-made SPKI of the 8192-bit key"}));
+            if der_opt.is_none() && standard_spki(typ, &material) != keys::RSA_PUBLIC_ONLY[idx - 100].1 {
+                problems.push(json!({"harness": "SPKI template disagrees with the openssl-made SPKI of a public-only key"}));
             }
             let mut std_spki = standard_spki(typ, &material);
             // a path that starts from a freshly generated key pair works on that key's material
